@@ -49,10 +49,6 @@ package server
 // and its ADD-PATH mode has a direction only if we configured it and the peer announced the opposite one.
 // (That every such family does end up in the map needs "the range visits every key", which the map model does
 // not give - DESIGN.md 8.)
-// logging helper: assumed free of side effects (not verified; listed in the evidence)
-//@ func (fsmStateReason).String
-//@   pure
-//@   spec-only
 //@ func open2Cap
 //@   requires open != nil && n != nil
 //@   claims frame step inv-init inv-keep
